@@ -226,6 +226,9 @@ func findingTags(a Schema, o Observed) []string {
 	if descRefTargets(a) {
 		tags = append(tags, "shape:descriptor-ref-targets")
 	}
+	if o.Stage == "ok" && !o.DirectAnc {
+		tags = append(tags, "F33:indirect-ancestors-enumerated-as-direct")
+	}
 	// F30: a struct nobody declared, of the name of a nested table declared in another package
 	if o.Stage == "ok" {
 		declared := map[string]string{} // nested table name -> declaring package
@@ -428,9 +431,45 @@ func shape(a Schema) (key string, nontrivial bool, tags []string) {
 	return
 }
 
+// is every workspace's Ancestors() the list its INHERITS clause names (sys.Workspace when it names nothing)?
+func directAncestorsShown(a Schema, d *Dump) bool {
+	got := map[string][]string{}
+	for _, it := range d.Items {
+		if it.Class == "ws" {
+			got[it.QName] = it.DirectAnc
+		}
+	}
+	for _, x := range allWs(a) {
+		want := map[string]bool{}
+		for _, q := range x.w.Inh {
+			pp := q.Pkg
+			if pp == "" {
+				pp = x.p.Name
+			}
+			want[pp+"."+q.Name] = true
+		}
+		if len(want) == 0 {
+			want["sys.Workspace"] = true
+		}
+		g := got[x.p.Name+"."+x.w.Name]
+		if len(g) != len(want) {
+			return false
+		}
+		for _, n := range g {
+			if !want[n] {
+				return false
+			}
+		}
+	}
+	return true
+}
+
 func runCase(a Schema, kind string, out *kit.Out) {
 	texts := Render(a)
 	o := observe(texts)
+	if o.Stage == "ok" {
+		o.DirectAnc = directAncestorsShown(a, o.Dump)
+	}
 	key, nontrivial, tags := shape(a)
 	tags = append(tags, kind, "outcome:"+o.Stage)
 	tags = append(tags, findingTags(a, o)...)
